@@ -31,8 +31,8 @@ static vh_event *vh_events;
 static volatile uint32_t vh_nevents;
 static int vh_overflow;
 static atomic_flag vh_tlock = ATOMIC_FLAG_INIT; /* guards thread registration only */
-static atomic_uint vh_ticket_next, vh_ticket_serving; /* trace lock: FIFO ticket lock (a test-and-set lock lets a
-                                                        * thread that logs in a tight loop starve the others) */
+static atomic_flag vh_tl = ATOMIC_FLAG_INIT; /* the trace lock */
+static atomic_int vh_waiters;
 static int vh_perturb = 1; /* H2 on/off */
 static int vh_target_kind = -1;     /* search mode: delay after every event of this kind */
 static int vh_target_us = 200;
@@ -127,18 +127,25 @@ static void vh_trace_lock(void)
                 ;
         }
     }
-    unsigned my = atomic_fetch_add_explicit(&vh_ticket_next, 1, memory_order_relaxed);
-    int spins = 0;
-    while (atomic_load_explicit(&vh_ticket_serving, memory_order_acquire) != my) {
-        if (++spins > 100) {
-            sched_yield();
-            spins = 0;
+    if (atomic_flag_test_and_set_explicit(&vh_tl, memory_order_acquire)) {
+        /* contended: announce ourselves so that the holder yields after releasing (a thread that logs in
+         * a tight loop must not starve the others), spin briefly, then yield the processor */
+        atomic_fetch_add_explicit(&vh_waiters, 1, memory_order_relaxed);
+        int spins = 0;
+        while (atomic_flag_test_and_set_explicit(&vh_tl, memory_order_acquire)) {
+            if (++spins > 50) {
+                sched_yield();
+                spins = 0;
+            }
         }
+        atomic_fetch_sub_explicit(&vh_waiters, 1, memory_order_relaxed);
     }
 }
 static void vh_trace_unlock(void)
 {
-    atomic_fetch_add_explicit(&vh_ticket_serving, 1, memory_order_release);
+    atomic_flag_clear_explicit(&vh_tl, memory_order_release);
+    if (atomic_load_explicit(&vh_waiters, memory_order_relaxed) > 0)
+        sched_yield(); /* hand the lock over instead of re-taking it at once */
     if (vh_tl_delay_pending) {
         /* targeted perturbation (failing-input search): widen the window right
          * after the action at which model and implementation disagreed */
